@@ -565,8 +565,10 @@ func runReaders(t *core.Tape, info *core.RunInfo) *core.Violation {
 			return viol("deterministic-in-consumed-bytes", "output-differs-from-recomputation", "call %d: output %x differs from blake2xb(sha256(consumed bytes)) = %x (readers %v)", c, head(outs[c]), head(want), names)
 		}
 	}
-	// depends on every reader: flip one consumed byte of one reader
-	if outLen > 0 {
+	// depends on every reader: flip one consumed byte of one reader. Only outputs of at
+	// least 16 bytes are compared: a 1-byte output coincides by chance once in 256 runs
+	// (false alarm of the first thorough sweep, DESIGN 9.4).
+	if outLen >= 16 {
 		i := t.Intn("oracle.flip", len(frs))
 		if len(frs[i].given) > 0 {
 			var frs2 []*faultyReader
